@@ -798,3 +798,62 @@ Proof.
   destruct (mark bes (bp s) (bs s)) as [[[bp1 bs1] okb] badb].
   destruct (mark_cancels cs (cn s)) as [[cn1 okc] badc]. lia.
 Qed.
+
+(** ---------- strict progress: a send whose first candidate is still queued ---------- *)
+
+Lemma wl_remtype_same c p t (l : wl) : zget c l = Some ((p, t) : went) -> snd (wl_remtype c t l) = true.
+Proof.
+  intros G. unfold wl_remtype. destruct (zget c l) as [[p0 t0]|]; [|discriminate].
+  injection G as -> ->. destruct (t =? TBlock) eqn:E; cbn [andb snd]; [|reflexivity].
+  apply Z.eqb_eq in E. subst t. reflexivity.
+Qed.
+
+Lemma mark_head_ok c (pt : went) r (pend sent : wl) : zget c pend = Some pt ->
+  let '(_, _, oks, _) := mark ((c, pt) :: r) pend sent in (1 <= length oks)%nat.
+Proof.
+  destruct pt as [p t]. intros G. cbn [mark]. pose proof (wl_remtype_same c p t pend G) as H.
+  destruct (wl_remtype c t pend) as [pend1 ok]. cbn [snd] in H. subst ok.
+  destruct (mark r pend1 (wl_add c p t sent)) as [[[a b] o] d]. cbn [length]. lia.
+Qed.
+
+Lemma mark_cancels_head_ok c r cset : smem c cset = true ->
+  let '(_, oks, _) := mark_cancels (c :: r) cset in (1 <= length oks)%nat.
+Proof.
+  intros M. cbn [mark_cancels]. rewrite M. destruct (mark_cancels r (srem c cset)) as [[a o] d]. cbn [length]. lia.
+Qed.
+
+(** a send whose first candidate (cancel, peer entry or broadcast entry) is still queued
+    strictly decreases the work measure *)
+Theorem send_strict fl sh cs pes bes s :
+  (match cs with c :: _ => smem c (cn s) | [] => false end = true \/
+   match pes with (c, pt) :: _ => match zget c (pp s) with Some pt' => went_eqb pt pt' | None => false end | [] => false end = true \/
+   match bes with (c, pt) :: _ => match zget c (bp s) with Some pt' => went_eqb pt pt' | None => false end | [] => false end = true) ->
+  (work (do_step fl sh s (SSend cs pes bes)) < work s)%nat.
+Proof.
+  intros H. cbn [do_step]. pose proof (send_work fl sh cs pes bes s) as W.
+  assert (E : forall (a b : went), went_eqb a b = true -> a = b).
+  { intros [a1 a2] [b1 b2]. unfold went_eqb. cbn [fst snd]. intros X. apply andb_true_iff in X as [X1 X2].
+    apply Z.eqb_eq in X1, X2. congruence. }
+  destruct H as [H|[H|H]].
+  - destruct cs as [|c r]; [discriminate|]. pose proof (mark_cancels_head_ok c r (cn s) H) as K.
+    destruct (mark pes (pp s) (ps s)) as [[[pp1 ps1] okp] badp].
+    destruct (mark bes (bp s) (bs s)) as [[[bp1 bs1] okb] badb].
+    destruct (mark_cancels (c :: r) (cn s)) as [[cn1 okc] badc]. lia.
+  - destruct pes as [|[c pt] r]; [discriminate|]. destruct (zget c (pp s)) as [pt'|] eqn:G; [|discriminate].
+    apply E in H. subst pt'. pose proof (mark_head_ok c pt r (pp s) (ps s) G) as K.
+    destruct (mark ((c, pt) :: r) (pp s) (ps s)) as [[[pp1 ps1] okp] badp].
+    destruct (mark bes (bp s) (bs s)) as [[[bp1 bs1] okb] badb].
+    destruct (mark_cancels cs (cn s)) as [[cn1 okc] badc]. lia.
+  - destruct bes as [|[c pt] r]; [discriminate|]. destruct (zget c (bp s)) as [pt'|] eqn:G; [|discriminate].
+    apply E in H. subst pt'. pose proof (mark_head_ok c pt r (bp s) (bs s) G) as K.
+    destruct (mark pes (pp s) (ps s)) as [[[pp1 ps1] okp] badp].
+    destruct (mark ((c, pt) :: r) (bp s) (bs s)) as [[[bp1 bs1] okb] badb].
+    destruct (mark_cancels cs (cn s)) as [[cn1 okc] badc]. lia.
+Qed.
+
+Lemma work_idle s : work s = 0%nat <-> idle s.
+Proof.
+  unfold work, idle. split.
+  - intros H. destruct (pp s), (bp s), (cn s); cbn [length] in H; try lia. auto.
+  - intros (-> & -> & ->). reflexivity.
+Qed.
